@@ -25,6 +25,8 @@ LOWERING = {
     'avx2': ['-mavx2', '-mfma', '-DNDEBUG'],  # code path of the `optim` build (-march=native on AVX2 hosts)
     # same code path as `scalar`, calls kept out of line so that a callee can be replaced by its contract (modular queries)
     'scalar-noinline': ['-fno-inline'],
+    # scalar code path with assert() compiled out, as in the optim/release builds (-DNDEBUG) on a host without AVX2
+    'scalar-ndebug': ['-DNDEBUG'],
 }
 HOOK_DEFINE = '-DTFHE_VERIF'
 
@@ -33,7 +35,7 @@ class Query:
     def __init__(self, key, harness, entry, defines=None, lowering='scalar', libs=(), models=(), stubs=None,
                  unwind=8, backends=('minisat', 'kissat', 'cvc5int'), cap=120, expect='pass', abort_fails=False,
                  extra=(), validate=False, witness=True, canary_of=None, externs=(), noops=(), sample=None,
-                 unwindset=(), native_sweep=200, object_bits=14, cflags=(), leak=False, finding_key=None, fp_uf=False, mdefs=None, native_libs=(), native_probe=False):
+                 unwindset=(), native_sweep=200, object_bits=14, cflags=(), leak=False, finding_key=None, fp_uf=False, mdefs=None, native_libs=(), native_probe=False, libdefs=None, tls_slots=1, yield_in=None, libsubst=None):
         self.native_probe = native_probe
         self.native_libs = list(native_libs)
         self.fp_uf = fp_uf
@@ -62,6 +64,10 @@ class Query:
         self.native_sweep = native_sweep
         self.object_bits = object_bits
         self.cflags = list(cflags)
+        self.libdefs = dict(libdefs or {})
+        self.libsubst = dict(libsubst or {})   # basename of a library source -> [(regex, replacement)]: bounded-size variant of the real source
+        self.tls_slots = tls_slots
+        self.yield_in = yield_in
         self.leak = leak
         self.finding_key = finding_key or key
 
@@ -126,6 +132,26 @@ def is_c(path):
 
 def dflags(defines):
     return ['-D%s=%s' % (k, v) for k, v in sorted(defines.items())]
+
+
+def subst_source(work, path, q):
+    """library source with the query's textual size substitutions applied (a copy next to the work dir; includes still resolve to the
+    original directory). A substitution that does not match is an error: the source no longer has the shape the bound was stated for."""
+    rules = q.libsubst.get(os.path.basename(path))
+    if not rules:
+        return path, ()
+    text = open(path).read()
+    for rx, rep in rules:
+        text, n = re.subn(rx, rep, text)
+        if n != 1:
+            raise RuntimeError('libsubst: %r matches %d times in %s' % (rx, n, path))
+    d = os.path.join(work, 'subst', hashlib.md5((path + repr(rules)).encode()).hexdigest()[:8])
+    os.makedirs(d, exist_ok=True)
+    out = os.path.join(d, os.path.basename(path))
+    tmp = out + '.tmp%d' % os.getpid()
+    open(tmp, 'w').write(text)
+    os.rename(tmp, out)
+    return out, ('-I' + os.path.dirname(path),)
 
 
 def compile_ll(work, path, lowering, defines=None, extra=()):
@@ -284,7 +310,8 @@ def prepare(q, work):
     os.makedirs(qd, exist_ok=True)
     lls = []
     for p in q.libs:
-        lls.append(compile_ll(work, src_path(p), q.lowering))
+        sp, inc = subst_source(work, src_path(p), q)
+        lls.append(compile_ll(work, sp, q.lowering, q.libdefs, inc))
     for p in q.models:
         lls.append(compile_ll(work, src_path(p), q.lowering, q.mdefs))
     hpath = os.path.join(HERE, 'harness', q.harness)
@@ -296,7 +323,7 @@ def prepare(q, work):
     if 'asm ' in text:
         import asm2c
         handler = asm2c.handler
-    csrc, rep, mod = ll2c.translate(text, [q.entry], q.stubs, q.externs, q.noops, handler)
+    csrc, rep, mod = ll2c.translate(text, [q.entry] + (['symx_yield'] if q.yield_in else []), q.stubs, q.externs, q.noops, handler, q.tls_slots, q.yield_in)
     cfile = os.path.join(qd, 'q.c')
     open(cfile, 'w').write(csrc)
     # IR hashes of the encoded functions (evidence: the formula is regenerated from the current tree)
@@ -362,7 +389,8 @@ def native_build(q, work, prep, sanitize=False, only_real=False):
                 defined.add(parts[2])
     objs = []
     for p in q.libs + q.native_libs:
-        o = compile_obj(work, src_path(p), q.lowering)
+        sp, inc = subst_source(work, src_path(p), q)
+        o = compile_obj(work, sp, q.lowering, q.libdefs, inc)
         r = run(['nm', '--defined-only', '-g', o])
         clash = sorted(set(l.split()[2] for l in r.stdout.split('\n') if len(l.split()) == 3 and l.split()[1] == 'T') & defined)
         if clash:
